@@ -393,10 +393,19 @@ func runC03(c *Ctx) {
 	// ---------------------------------------------------------------- R8
 	c.rule("R8", "the cache key is injective in the question (a hit must carry the asker's own question)", 37)
 	checkCacheKeyLayout(c)
+	// the second writer of the key -> answer table: a reloaded dump pairs each key with its own answer
+	checkDumpWriterPairing(c)
+	if rd := c.fn(relCachePlugin, "Cache", "readDump"); rd != nil {
+		checkDumpReaderFields(c, rd)
+	}
 
 	// ---------------------------------------------------------------- R12
 	c.rule("R12", "what the cache stores shares no memory with the live response (a later plugin's in-place rewrite of the reply's question must not end up in the entry that answers another name)", 5)
 	checkCopyHelperDeep(c)
+
+	// ---------------------------------------------------------------- R13
+	c.rule("R13", "who may write a message's identity (id, question): only the known sites; a reply gets its question once", 18)
+	checkIdentityWriters(c)
 
 	// ---------------------------------------------------------------- R11
 	c.rule("R11", "the server tells the handler how the query arrived: FromUDP is the constant true exactly at the datagram server's Handle call", 3)
@@ -828,4 +837,104 @@ func isSavedOriginal(p *Prog, v ssa.Value, k string) bool {
 		}
 	}
 	return true
+}
+
+// identityWriters: functions that may store into MsgHdr.Id / Question fields / Msg.Question of a
+// message that is not a function-local dns.Question value. Each was read; what it writes is decided
+// by the rule named.
+var identityWriters = map[string]string{
+	"(*plugin/executable/redirect.Redirect).Exec":      "rewrites the query name under a deferred restore (R6) and restores it in the reply (R7)",
+	"(*plugin/executable/redirect.Redirect).Exec$1":    "the deferred restore (R6)",
+	"(*plugin/executable/dual_selector.Selector).Exec": "changes the type on a context copy (R6)",
+	"(*plugin/executable/cache.Cache).Exec":            "gives the cached copy the asker's id (R5 hit-id / C10-R3)",
+	"plugin/executable/cache.copyNoOpt":                "builds the private copy (R12)",
+}
+
+// checkIdentityWriters: (a) no other function stores into the id / question of a message,
+// (b) SetQuestion is used only where mosdns is the client (tools, bootstrap), (c) a message gets its
+// identity (SetReply / SetRcode / SetQuestion / Unpack) at most once on any path.
+func checkIdentityWriters(c *Ctx) {
+	p := c.P
+	w := p.whoWrites()
+	localQuestion := func(addr ssa.Value) bool {
+		// a dns.Question value that lives in a local variable (map key, log object, loop copy)
+		b := addr
+		for i := 0; i < 6; i++ {
+			switch x := b.(type) {
+			case *ssa.FieldAddr:
+				b = x.X
+				continue
+			case *ssa.IndexAddr:
+				b = x.X
+				continue
+			}
+			break
+		}
+		al, ok := b.(*ssa.Alloc)
+		if !ok {
+			return false
+		}
+		tk := typeKey(al.Type())
+		return strings.HasSuffix(tk, "dns.Question") || strings.HasSuffix(tk, "dns.MsgHdr")
+	}
+	seen := map[ssa.Instruction]bool{}
+	for _, k := range []string{"github.com/miekg/dns.Question.Name", "github.com/miekg/dns.Question.Qtype", "github.com/miekg/dns.Question.Qclass", "github.com/miekg/dns.MsgHdr.Id", "github.com/miekg/dns.Msg.Question", "github.com/miekg/dns.Msg.MsgHdr"} {
+		for _, fw := range w.byField[k] {
+			if fw.Fn.Pkg == nil || strings.HasSuffix(fw.Fn.Pkg.Pkg.Path(), "/tools") || seen[fw.Instr] {
+				continue
+			}
+			seen[fw.Instr] = true
+			if st, ok := fw.Instr.(*ssa.Store); ok && localQuestion(st.Addr) {
+				continue
+			}
+			c.see(fw.Fn)
+			key := "identity-write@" + funcName(fw.Fn) + ":" + fieldTail(k)
+			why, known := identityWriters[funcName(fw.Fn)]
+			c.check(known, key, instrPos(fw.Instr), why,
+				"writes the "+fieldTail(k)+" of a DNS message outside the known sites: a reply whose id or question was rewritten on the way out is not the reply to the client's query (if this is a new, correct writer it must be added to the table with the rule that decides it)")
+		}
+	}
+	idCalls := map[string]bool{
+		"(*github.com/miekg/dns.Msg).SetReply": true, "(*github.com/miekg/dns.Msg).SetRcode": true, "(*github.com/miekg/dns.Msg).SetQuestion": true,
+		"(*github.com/miekg/dns.Msg).SetRcodeFormatError": true, "(*github.com/miekg/dns.Msg).Unpack": true, "(*github.com/miekg/dns.Msg).SetUpdate": true,
+		"(*github.com/miekg/dns.Msg).SetNotify": true, "(*github.com/miekg/dns.Msg).SetAxfr": true, "(*github.com/miekg/dns.Msg).SetIxfr": true,
+	}
+	for _, f := range p.Funcs {
+		if f.Pkg == nil || strings.HasSuffix(f.Pkg.Pkg.Path(), "/tools") {
+			continue
+		}
+		fn := f
+		eachInstr(f, func(in ssa.Instruction) {
+			cl, ok := in.(*ssa.Call)
+			if !ok || !idCalls[callName(cl)] || len(cl.Call.Args) == 0 {
+				return
+			}
+			c.see(fn)
+			n := callName(cl)
+			short := n[strings.LastIndex(n, ".")+1:]
+			if short == "SetQuestion" || short == "SetUpdate" || short == "SetNotify" || short == "SetAxfr" || short == "SetIxfr" {
+				okPkg := strings.HasSuffix(fn.Pkg.Pkg.Path(), "/pkg/upstream/bootstrap")
+				c.check(okPkg, "set-question@"+funcName(fn), instrPos(in), "mosdns is the client here (bootstrap resolver)",
+					short+" on a message outside the bootstrap resolver: a reply must carry the question of the query it answers, not one made up here")
+			}
+			recv := cl.Call.Args[0]
+			if _, bad := reachAvoiding(in, func(y ssa.Instruction) bool {
+				c2, ok := y.(*ssa.Call)
+				if !ok || y == in || !idCalls[callName(c2)] || len(c2.Call.Args) == 0 || c2.Call.Args[0] != recv {
+					return false
+				}
+				// SetReply / SetRcode again from the very same request: same id and question
+				n2 := callName(c2)
+				if (strings.HasSuffix(n2, ".SetReply") || strings.HasSuffix(n2, ".SetRcode")) && (short == "SetReply" || short == "SetRcode") &&
+					len(cl.Call.Args) > 1 && len(c2.Call.Args) > 1 && c2.Call.Args[1] == cl.Call.Args[1] {
+					return false
+				}
+				return true
+			}, nil); bad {
+				c.fail("identity-once@"+funcName(fn), instrPos(in), "the message %s gets its id/question a second time after this %s: the later call decides what the client sees", exprStr(recv), short)
+			} else {
+				c.ok("identity-once@"+funcName(fn)+":"+short, instrPos(in), "no second identity-setting call on the same message")
+			}
+		})
+	}
 }
